@@ -14,6 +14,7 @@ type mergeState struct {
 	op      *MergeOperator
 	adds    []string
 	sibling bool
+	later   bool
 }
 
 func mergeConcat(existing, val []byte) []byte { return append(append([]byte{}, existing...), val...) }
@@ -37,7 +38,7 @@ func init() {
 			lsmClose(x)
 		},
 		enabled: func(x *seqExec) []string {
-			ops := []string{"MA", "MC", "F", "C0", "C1", "R", "SX"} // SX: write a key that EXTENDS the merge key
+			ops := []string{"MA", "MC", "F", "C0", "C1", "R", "SX", "SZ"} // SX: write a key that EXTENDS the merge key; SZ: a key that sorts after it
 			if x.j.Bool("other", false) {
 				ops = append(ops, "Sa") // an unrelated key sharing tables with the merge key
 			}
@@ -85,6 +86,15 @@ func init() {
 					panic(err)
 				}
 				return true
+			case "SZ":
+				if st.later {
+					return false
+				}
+				st.later = true
+				if err := x.db.Update(func(txn *Txn) error { return txn.Set([]byte("z-later"), []byte("LATER")) }); err != nil {
+					panic(err)
+				}
+				return true
 			case "MC":
 				before := len(dumpAll(x.db)["m"])
 				if err := st.op.compact(); err != nil {
@@ -126,7 +136,7 @@ func init() {
 			x.st = st.ls
 			k := lsmKey(x)
 			x.st = st
-			return fmt.Sprintf("%s|adds%d|sib%v", k, 0, st.sibling)
+			return fmt.Sprintf("%s|adds%d|sib%v|later%v", k, 0, st.sibling, st.later)
 		},
 		describe: func(x *seqExec) string { return shapeString(x.db) },
 	})
